@@ -22,7 +22,7 @@ def distExt (rates : Nat → Int) (rand : Nat → Int → Int) : Ext F := fun f 
 
 def rndState (N : Nat) (s : Rnd) (now : Int) : State F :=
   ⟨[("remainingSteps", .int s.remaining), ("remainingRate", .int s.remRate), ("tickSteps", .int N), ("carg0", .int now)],
-   [("arg1", s.evals), ("arg2", s.draws)], [], []⟩
+   [("arg1", s.evals), ("arg2", s.draws)], [], [], []⟩
 
 /-- one call of the regenerated closure of `withRandomDistribution` is `rndStep`: same output, same remaining rate and
 steps, same number of evaluations of the underlying rate and of draws from the random source (`N ≥ 1`: the closure
@@ -48,7 +48,7 @@ def regStepG (N : Nat) (rate : Int) (acc : F) : F × Int :=
 def regStateG (N : Nat) (rate : Int) (acc : F) (remaining evals : Nat) (now : Int) : State F :=
   ⟨[("remainingSteps", .int remaining), ("rate", .int rate), ("accRate", .flt acc),
     ("tickSteps", .int N), ("carg0", .int now)],
-   [("arg1", evals)], [], []⟩
+   [("arg1", evals)], [], [], []⟩
 
 /-- step 1: the regenerated closure of `withRegularDistribution`, in any arithmetic, is the reload test followed by
 `regStepG`; the underlying rate is evaluated exactly when a cycle starts -/
